@@ -346,9 +346,7 @@ func TestVerifBounded(t *testing.T) {
 				fmt.Fprintf(&sb, "unit %q benchmarks %q series %q\n", cs.Unit, cs.Benchmarks, cs.Series)
 				var hp []string
 				for k, v := range cs.HashPairs {
-					// the denominator hash of a series is taken from whichever trial is
-					// visited first; it is compared below where all trials agree on it
-					hp = append(hp, fmt.Sprintf("%s=%s", k, v.NumHash))
+					hp = append(hp, fmt.Sprintf("%s=%s/%s", k, v.NumHash, v.DenHash))
 				}
 				sort.Strings(hp)
 				fmt.Fprintf(&sb, " hashpairs %q\n", hp)
@@ -389,9 +387,11 @@ func TestVerifBounded(t *testing.T) {
 		if !ok {
 			continue
 		}
-		for k := 0; k < 4; k++ {
+		for k := -1; k < 4; k++ {
 			perm := append([]int(nil), order...)
-			if k == 0 {
+			if k == -1 {
+				// the same order once more: the outcome may not depend on anything but the input
+			} else if k == 0 {
 				for i, j := 0, len(perm)-1; i < j; i, j = i+1, j-1 {
 					perm[i], perm[j] = perm[j], perm[i]
 				}
@@ -421,7 +421,7 @@ func TestVerifBounded(t *testing.T) {
 				match := func(r verifRow) bool { return goos == "" || r.goos == goos }
 				benches := map[string]bool{}
 				want := map[SeriesKey]*verifPoint{}
-				noBase := map[string]bool{} // series with a trial that has a test but no baseline
+				anyBase := map[string]bool{} // series with a trial that has both a test and a baseline
 				anyRow := false
 				for _, r := range rows {
 					if match(r) {
@@ -458,8 +458,8 @@ func TestVerifBounded(t *testing.T) {
 							if len(nu) == 0 {
 								continue
 							}
-							if len(de) == 0 {
-								noBase[ser] = true
+							if len(de) > 0 {
+								anyBase[ser] = true
 							}
 							sk := SeriesKey{Benchmark: bn, Series: ser}
 							p := want[sk]
@@ -534,8 +534,14 @@ func TestVerifBounded(t *testing.T) {
 					if c.Date != w.date {
 						bad("data set %d (policy %d), %q point %v: date %q, want %q", ds, dupe, name, sk, c.Date, w.date)
 					}
-					if hp := cs.HashPairs[sk.Series]; hp.NumHash != w.numHash || hp.DenHash != "dddd" && !noBase[sk.Series] {
-						bad("data set %d, %q point %v: hash pair %+v, want %s/dddd", ds, name, sk, hp, w.numHash)
+					// the denominator hash is that of the baseline measurements of the
+					// trials behind the series point (none: empty)
+					wantDen := ""
+					if anyBase[sk.Series] {
+						wantDen = "dddd"
+					}
+					if hp := cs.HashPairs[sk.Series]; hp.NumHash != w.numHash || hp.DenHash != wantDen {
+						bad("data set %d, %q point %v: hash pair %+v, want %s/%s", ds, name, sk, hp, w.numHash, wantDen)
 					}
 					sum, ok := cs.SummaryAt(sk.Benchmark, sk.Series)
 					if !ok || sum == nil {
@@ -569,5 +575,5 @@ func TestVerifBounded(t *testing.T) {
 	if knownUlp {
 		fmt.Printf("KNOWN-CLASS interp-ulp %d %s\n", classFails, classExample)
 	}
-	fmt.Printf("BOUNDED-RESULT {\"cases\": %d, \"failures\": %d, \"bound\": \"%d sorted slices (1-40, a tenth up to 3000 values; p in {0, 1-2^-53, the two tails of five confidence levels, k/2^20}) for percentile and median; %d generated result sets (1-2 units, optional goos table, 2 benchmarks, 1-3 experiments and 1-3 hashes with stamps in either format, roles baseline/experiment/other/unset, both duplicate policies, 2-16 results) each added in 5 orders, bootstrapped with confidence in {0.5..0.99} and 37-250 resamples\", \"exhaustive\": false}\n", n, fails, helperCases, datasets)
+	fmt.Printf("BOUNDED-RESULT {\"cases\": %d, \"failures\": %d, \"bound\": \"%d sorted slices (1-40, a tenth up to 3000 values; p in {0, 1-2^-53, the two tails of five confidence levels, k/2^20}) for percentile and median; %d generated result sets (1-2 units, optional goos table, 2 benchmarks, 1-3 experiments and 1-3 hashes with stamps in either format, roles baseline/experiment/other/unset, both duplicate policies, 2-16 results) each added in 6 orders (the first one twice), bootstrapped with confidence in {0.5..0.99} and 37-250 resamples\", \"exhaustive\": false}\n", n, fails, helperCases, datasets)
 }
